@@ -33,7 +33,8 @@ def run_pairs(ctx, types=None, pairs=None):
     cases = os.path.join(sd, "eq_cases.ndjson")
     if pairs is None:
         slicecheck.write_cfg(ctx, "FoEqCases_run.cfg",
-                             "CONSTANTS\n  OutFile = \"eq_cases.ndjson\"\n  Types = {%s}\nINIT Init\nNEXT Next\n" % ", ".join(json.dumps(t) for t in types))
+                             "CONSTANTS\n  OutFile = \"eq_cases.ndjson\"\n  Deep = %s\n  Types = {%s}\nINIT Init\nNEXT Next\n" % (
+                                 "TRUE" if ctx.tier == "thorough" else "FALSE", ", ".join(json.dumps(t) for t in types)))
         ctx.tlc("FoEqCases", "FoEqCases_run.cfg", workers=1, timeout=3000, heap_gb=6)
         if not os.path.exists(cases):
             raise Infra("TLC did not export the equality pairs")
@@ -58,7 +59,7 @@ def scalar(v):
 def run(ctx):
     ctx.rule = ("all same-typed pairs of the bounded value universe of FoEq.tla (16 Folang types: scalars, 2/3-tuples, records with "
                 "upper- and lower-case fields, unions with/without payload, records and tuples containing unions containing slices, "
-                "slices of ints/strings/records/tuples/slices; every slice in each library-produced representation incl. views of "
+                "slices (length <= 2, thorough: <= 3) of ints/strings/records/tuples/slices; every slice in each library-produced representation incl. views of "
                 "the other operand's array), a = b, a <> b and b = a evaluated by the real frt on Go types emitted by fc; "
                 "distinct = distinct (type, a, b, shared); non-trivial = not both scalars")
     lines, bad = run_pairs(ctx, types=ALL_TYPES)
